@@ -60,7 +60,7 @@ struct Operand
 
 struct Stats
 {
-    uint64_t trials = 0, calls = 0, alias = 0, noncanon_in = 0, noncanon_out = 0;
+    uint64_t trials = 0, calls = 0, alias = 0, noncanon_in = 0, noncanon_out = 0, regalias = 0;
     uint64_t stride_in[9] = {0}, stride_out[9] = {0}, idx_in[IK_N] = {0}, idx_out[IK_N] = {0};
     uint64_t shape_in[6] = {0}, shape_out[6] = {0};
 };
@@ -69,6 +69,7 @@ struct Ctx
 {
     gen::G64 g;
     std::unique_ptr<arena::Sentinel> pool[3][4];
+    std::string keysuffix; // "concurrent-callers:" for the contexts of the concurrent phase
     Ctx()
     {
         for (int r = 0; r < 3; r++)
@@ -240,7 +241,7 @@ static void run_trial(Ctx &cx, const c17::Ov &ov, uint64_t tseed, vf::Report &re
     t.is_copy = ov.op[0] == 'c';
     t.opc = ov.op[0];
     t.c.sh = ov.c; t.a.sh = ov.a; t.b.sh = ov.b;
-    const std::string keystem = std::string("C17:") + ov.family + ":" + ov.id + ":";
+    const std::string keystem = std::string("C17:") + ov.family + ":" + ov.id + ":" + cx.keysuffix;
 
     // ---- aliasing mode: result positions == positions of one memory input (legal for the library: every definition
     //      reads all inputs of a lane / of the call before it stores)
@@ -375,6 +376,12 @@ static void run_trial(Ctx &cx, const c17::Ov &ov, uint64_t tseed, vf::Report &re
         fill_call_operand(t.b, x.b, x.sb, x.ib, x.vb, x.rb, L, junk + 2);
         if (t.c.sh == c17::REG)
             for (int k = 0; k < L; k++) x.rc[k] = pre[k];
+        // one trial in four of the register-result overloads with a register input: the result register IS that input register
+        if (t.c.sh == c17::REG && (t.a.sh == c17::REG || t.b.sh == c17::REG) && (tseed & 3) == 1)
+        {
+            x.regalias = (t.a.sh == c17::REG && t.b.sh == c17::REG) ? 1 + (int)((tseed >> 2) & 1) : (t.a.sh == c17::REG ? 1 : 2);
+            if (pass == 0) st.regalias++;
+        }
         c17::Call before = x;
 
         ov.fn(x);
@@ -444,6 +451,7 @@ static void flush_stats(const c17::Ov &ov, const Stats &st, vf::Report &rep)
     rep.cls("calls:" + f, st.calls);
     rep.cls("trials:op:" + std::string(ov.op), st.trials);
     rep.cls("mode:result_aliases_input", st.alias);
+    rep.cls("mode:result_register_is_input_register", st.regalias);
     rep.cls("values:trials_with_noncanonical_input", st.noncanon_in);
     rep.cls("values:noncanonical_result_lanes", st.noncanon_out);
     for (int i = 0; i < 9; i++)
@@ -513,6 +521,34 @@ static void run_wrappers(const vf::Args &args, vf::Report &rep, const std::vecto
         Stats st;
         for (uint64_t tr = first; tr < last; tr++) run_trial(*cx, o, vf::mix64(base, tr), r, st);
         flush_stats(o, st, r);
+        if (ch == 0)
+        {
+            // the same overload called by four threads at once, each on its own arenas and operands: a wrapper must not keep
+            // per-process scratch that concurrent callers share
+            const int T = 4;
+            uint64_t nconc = std::min<uint64_t>(chunk, args.thorough() ? 4000 : 300);
+            std::vector<std::unique_ptr<Ctx>> cxs;
+            std::vector<vf::Report> reps(T);
+            for (int t = 0; t < T; t++)
+            {
+                cxs.emplace_back(new Ctx());
+                cxs[t]->keysuffix = "concurrent-callers:";
+                reps[t].prop = r.prop; reps[t].out = r.out; reps[t].fd = r.fd; reps[t].t0 = vf::Report::now();
+                reps[t].nt_cap = 64; reps[t].sample_cap = 0;
+            }
+#pragma omp parallel num_threads(T)
+            {
+                int me = omp_get_thread_num() % T;
+                Stats stl;
+                for (uint64_t tr = 0; tr < nconc; tr++) run_trial(*cxs[me], o, vf::mix64(base ^ 0xC0C0C0ULL, (uint64_t)me * 1000003 + tr), reps[me], stl);
+            }
+            for (int t = 0; t < T; t++)
+            {
+                r.evaluations += reps[t].evaluations;
+                for (auto &kv : reps[t].viol_seen) r.viol_seen[kv.first] += kv.second;
+            }
+            r.cls("mode:concurrent_callers_trials", nconc * T);
+        }
     };
     auto mine = [&](uint64_t i) { return (int)(i % (uint64_t)args.nshards) == args.shard; };
     vf::run_forked(rep, n, cfg, desc, keyfn, body, mine);
